@@ -1034,8 +1034,10 @@ def str_reverse_simplifier(arg):
 
 def invert_simplifier(expr):
     # ~ if(cond then 1 else 0)  ->  if(cond, ~1, ~0)  ->    if(!cond, 1,0)
+    # only at one bit: at 8 bits ~1 is 0xfe and ~0 is 0xff
     if (
         expr.op == "If"
+        and expr.size() == 1
         and expr.args[1].op == "BVV"
         and expr.args[1].args[0] == 1
         and expr.args[2].op == "BVV"
